@@ -453,6 +453,32 @@ func (c *c08ctx) checkArrayHas(ru *fw.Rule, w *c08wrap, f *ssa.Function) {
 	keyParam := e.Term(f.Params[len(f.Params)-1])
 	k := "assert<int>(" + keyParam + ").v"
 	okT := "assert<int>(" + keyParam + ").ok"
+	// the key may be converted by a helper answering (index int, isNumber bool) instead of a bare int assertion;
+	// which number representations that helper accepts is the obligation <name>.Has:numbers below
+	var conv *ssa.Function
+	fw.EachInstr(f, func(ins ssa.Instruction) {
+		ex, ok := ins.(*ssa.Extract)
+		if !ok {
+			return
+		}
+		cl, ok := ex.Tuple.(*ssa.Call)
+		if !ok || cl.Common().StaticCallee() == nil || len(cl.Common().Args) != 1 || e.Term(cl.Common().Args[0]) != keyParam {
+			return
+		}
+		res := cl.Common().Signature().Results()
+		if res.Len() != 2 || !types.Identical(res.At(0).Type(), types.Typ[types.Int]) || !types.Identical(res.At(1).Type(), types.Typ[types.Bool]) {
+			return
+		}
+		conv = cl.Common().StaticCallee()
+		if ex.Index == 0 {
+			k = e.Term(ex)
+		} else {
+			okT = e.Term(ex)
+		}
+	})
+	if conv != nil {
+		c.checkHasIndexConv(ru, key+":numbers", conv)
+	}
 	want := map[string]bool{
 		fw.PAtom(k).String() + " >= 0": true,
 		fw.PAtom("len("+w.C+")").Sub(fw.PAtom(k)).Sub(fw.PConst(1)).String() + " >= 0": true,
@@ -801,4 +827,63 @@ func (c *c08ctx) checkKeySeq(ru *fw.Rule, w *c08wrap, h *ssa.Function) {
 		return
 	}
 	ru.Check(len(msgs) == 0, key, c.pos(h), "one entry per key of the receiver map", strings.Join(uniq(msgs), "; "))
+}
+
+// checkHasIndexConv: the key converter of an array has/1 accepts every representation gojq uses for a number
+// that can index a plain array (int, float64, *big.Int: gojq's toInt), answers ok=true for each of them and
+// ok=false only in the arm no number type selects; the int arm returns the key itself.
+func (c *c08ctx) checkHasIndexConv(ru *fw.Rule, key string, f *ssa.Function) {
+	var msgs []string
+	if len(f.Params) != 1 {
+		ru.Undecided(key, c.pos(f), "key converter does not take exactly the key")
+		return
+	}
+	seen := map[string]*ssa.TypeAssert{}
+	fw.EachInstr(f, func(ins ssa.Instruction) {
+		if ta, ok := ins.(*ssa.TypeAssert); ok && ta.X == ssa.Value(f.Params[0]) && ta.CommaOk {
+			seen[types.TypeString(ta.AssertedType, nil)] = ta
+		}
+	})
+	for _, t := range []string{"int", "float64", "*math/big.Int"} {
+		if seen[t] == nil {
+			msgs = append(msgs, "a key of type "+t+" is not accepted (gojq indexes a plain array with int, float64 and *big.Int keys)")
+		}
+	}
+	for _, rc := range fw.ReturnCases(f, 1) {
+		isNum := false
+		for t, ta := range seen {
+			ta := ta
+			_ = t
+			if !fw.CaseReachable(f, rc, func(cd fw.Cond) bool {
+				ex, ok := cd.Val.(*ssa.Extract)
+				return ok && ex.Tuple == ssa.Value(ta) && ex.Index == 1 && cd.True
+			}) {
+				isNum = true // every way to this return passes the successful assertion of one number type
+			}
+		}
+		switch {
+		case isConstBool(rc.Val, true):
+			if !isNum {
+				msgs = append(msgs, "answers ok=true for a key that is no number")
+			}
+		case isConstBool(rc.Val, false):
+			if isNum {
+				msgs = append(msgs, "answers ok=false for a number key")
+			}
+		default:
+			msgs = append(msgs, "ok result is not a constant per arm")
+		}
+	}
+	if ta := seen["int"]; ta != nil {
+		okInt := false
+		for _, rc := range fw.ReturnCases(f, 0) {
+			if ex, ok := rc.Val.(*ssa.Extract); ok && ex.Tuple == ssa.Value(ta) && ex.Index == 0 {
+				okInt = true
+			}
+		}
+		if !okInt {
+			msgs = append(msgs, "the int arm does not return the key itself")
+		}
+	}
+	ru.Check(len(msgs) == 0, key, c.pos(f), "int, float64 and *big.Int keys are indexes, anything else is not", strings.Join(uniq(msgs), "; "))
 }
